@@ -394,6 +394,7 @@ class FakeKube:
         self.fault_fn: Callable[[Request], list[Fault] | None] | None = None
         self.lag_fn: Callable[[WatchStream, dict[str, Any]], float] | None = None
         self.post_yields = 0
+        self.base_latency = 0.0     # virtual seconds every non-watch request takes (breaks zero-time livelocks of virtual time)
         self.on_event: list[Callable[[str, dict[str, Any]], None]] = []
         self._loop: asyncio.AbstractEventLoop | None = None
         for ns in namespaces:
@@ -652,6 +653,11 @@ class FakeKube:
         if client.dead:
             req.fault = 'dead'
             raise ClientDead("client is dead")
+        if self.base_latency and not req.watch:
+            await asyncio.sleep(self.base_latency)
+            if client.dead:
+                req.fault = 'dead'
+                raise ClientDead("client is dead")
         faults = (self.fault_fn(req) if self.fault_fn is not None else None) or []
         req.fault = ','.join(repr(f) for f in faults) or None
         post_kill = False
